@@ -169,7 +169,7 @@ CHECKS = {
             "engine": "solver-world/gcp",
             "design_ref": "DESIGN.md section 3, engine C, C13",
             "level_text": "Seeded search over (a) sampler calls on dense / sparse / nearly-full / nearly-empty data with requests from 0 to beyond the supply, judged against the data by an independent lookup (subscripts inside, values equal data, true zeros, one weight per sample, per-stratum weight totals); (b) histories of 2-5 solves on ONE SGD/Adam/Adagrad/LBFGSB object, some aborted by an injected collaborator fault (sampler, loss callable or user callback raising at its k-th call), each returned solve checked for bounds, best-of-trace, trace length (epochs counted independently through the sampler proxy) and compared (up to rounding, 1e-9 relative) with the same solve on a freshly constructed optimizer under the same random stream and a different clock.",
-            "level_note": "Trusted: the loss callables of pyttb.gcp.handles (used by the harness to recompute estimates), harness' own model evaluation, numpy RNG seeding. Semi-stratified zero samples are by definition not rejection-sampled, so the true-zero clause is not applied to them. Runs whose estimates become NaN are counted and excluded from the ordering clauses. 30% of the solves are preceded by the construction (half of the time also the use) of another, differently configured optimizer object of the same class. The zero sampler is also called directly, with and without replacement. Sample steps also use count data in int64 storage and sampler objects configured on a tensor of another size. A NaN result from a starting guess with a finite estimate is a violation.",
+            "level_note": "Trusted: the loss callables of pyttb.gcp.handles (used by the harness to recompute estimates), harness' own model evaluation, numpy RNG seeding. Semi-stratified zero samples are by definition not rejection-sampled, so the true-zero clause is not applied to them. Runs whose estimates become NaN are counted and excluded from the ordering clauses. 30% of the solves are preceded by the construction (half of the time also the use) of another, differently configured optimizer object of the same class. The zero sampler is also called directly, with and without replacement. Sample steps also use count data in int64 storage and sampler objects configured on a tensor of another size. A NaN result from a starting guess with a finite estimate is a violation. 35% of the fault-free L-BFGS-B steps call the solver object's solve method directly, from a model with non-unit weights.",
             "technique": "deterministic simulation: seeded stream + scripted clock + faulting sampler/loss proxies; history of solves on one object vs. fresh-object reference (differential)",
         },
         "level": "exploration",
@@ -194,7 +194,7 @@ CHECKS = {
             "engine": "solver-world/presentation",
             "design_ref": "DESIGN.md section 3, engine C, C18",
             "level_text": "Seeded search over problems x relations: for CP-ALS, CP-APR (mu/pdnr/pqnr), HOSVD, Tucker-ALS and GCP/L-BFGS-B a base run and a variant of the same problem are executed inside the simulated world (scripted clock, seeded global random stream, ARPACK start vector behind a seam, captured stdout/logging) and the denoted tensors, iteration counts, fits and the random-stream state afterwards are compared. R1-R4 (same seed incl. fresh interpreter under another PYTHONHASHSEED and after unrelated eigen-solves, verbosity, clock, returned guess) are the simulation proper; R5-R7 (dense/sparse, positive scaling, consistent mode relabelling) are metamorphic relations on the same harness.",
-            "level_note": "Tolerances: 1e-12 relative, i.e. rounding level, for R1/R2/R3 and their variants (bit identity is counted, not demanded: identical calls differ in the last bits through alignment-dependent numpy/BLAS kernels), 1e-12 (R4; 1e-8 for GCP), 1e-8 (R5-R7) relative on the dense tensor, fits to 1e-6. Iteration counts pinned (stoptol=0, small maxiters) for R4-R7, a live convergence tolerance for the bit-identity relations; GCP relabelling with an explicit guess, <= 2 L-BFGS-B iterations, 1e-6; generic continuous data, admissible ranks; pairs whose eigen-gap at a truncation is < 1e-6 are skipped and counted. ARPACK seam always on. Mode orders are handed over as list, tuple or numpy array (relation R1d: same result in every form). 0.7% of the problems have 70 000-110 000 cells (CP-ALS / MU; dense-vs-sparse and verbosity relations).",
+            "level_note": "Tolerances: 1e-12 relative, i.e. rounding level, for R1/R2/R3 and their variants (bit identity is counted, not demanded: identical calls differ in the last bits through alignment-dependent numpy/BLAS kernels), 1e-12 (R4; 1e-8 for GCP), 1e-8 (R5-R7) relative on the dense tensor, fits to 1e-6. Iteration counts pinned (stoptol=0, small maxiters) for R4-R7, a live convergence tolerance for the bit-identity relations; GCP relabelling with an explicit guess, <= 2 L-BFGS-B iterations, 1e-6; generic continuous data, admissible ranks; pairs whose eigen-gap at a truncation is < 1e-6 are skipped and counted. ARPACK seam always on. Mode orders are handed over as list, tuple or numpy array (relation R1d: same result in every form). 0.7% of the problems have 70 000-110 000 cells (CP-ALS / MU; dense-vs-sparse and verbosity relations). 12% of the >= 3-way problems have a mode of size one; 8% of the CP-ALS / Tucker-ALS problems hold whole-number data in a narrow integer type; the scale relation is also run with a convergence tolerance in force (the scaled run must stop within one sweep of the base run).",
             "technique": "deterministic simulation: paired runs under controlled seed/clock/output/interpreter seams; metamorphic relations for representation, scale and relabelling",
         },
         "level": "exploration",
